@@ -264,6 +264,32 @@ fn main() {
                                      "copy": C::<$t>(std::marker::PhantomData).is_copy()}));
                 }};
             }
+            // a UniqueArc may only be duplicated by duplicating the value (a Clone impl that makes a second allocation
+            // is fine): if it can be cloned, clone one and see whether the copy shares the allocation
+            trait TryClone<T> {
+                fn try_clone(&self, _v: &T) -> Option<T> {
+                    None
+                }
+            }
+            impl<T> TryClone<T> for Probe<T> {}
+            #[allow(dead_code)]
+            impl<T: Clone> Probe<T> {
+                fn try_clone(&self, v: &T) -> Option<T> {
+                    Some(v.clone())
+                }
+            }
+            {
+                let u = UniqueArc::new(String::from("x"));
+                let c = Probe::<UniqueArc<String>>(std::marker::PhantomData).try_clone(&u);
+                let shares = c.as_ref().map(|c| std::ptr::eq(&**c as *const String, &*u as *const String));
+                rows.push(json!({"kind": "Unq", "fact": "clone_shares_allocation", "shares": shares}));
+                std::mem::forget(c); // (never release a second handle to one allocation)
+                let us: UniqueArc<[u8]> = vec![1u8, 2].into_iter().collect();
+                let cs = Probe::<UniqueArc<[u8]>>(std::marker::PhantomData).try_clone(&us);
+                let shares = cs.as_ref().map(|c| std::ptr::eq(c.as_ptr(), us.as_ptr()));
+                rows.push(json!({"kind": "UnqSl", "fact": "clone_shares_allocation", "shares": shares}));
+                std::mem::forget(cs);
+            }
             dup!("Arc", Arc<String>);
             dup!("Off", OffsetArc<String>);
             dup!("Uni", ArcUnion<String, u8>);
